@@ -10,6 +10,10 @@ import (
 )
 
 func main() {
+	if len(os.Args) > 2 && os.Args[1] == "-funcs" {
+		listFuncs(os.Args[2])
+		return
+	}
 	tu, err := cfront.Parse(os.Args[1], os.Args[2])
 	if err != nil {
 		fmt.Println(err)
